@@ -147,7 +147,10 @@ class SelfDependencyEliminator(ASTStatementRewriter):
                     lambda expr: substitute(expr, dict(substs)),
                     include_lhs=False)
                 .copy(
-                    # lhs will be rewritten, but we don't want that.
+                    # The guard is tested before the statement writes
+                    # anything, and the temporaries are only set if it
+                    # holds: it keeps reading the original variables.
+                    condition=stmt.condition,
                     depends_on=stmt.depends_on | frozenset(tmp_stmt_ids)))
         new_statements.append(new_stmt)
 
